@@ -46,10 +46,12 @@ def rng(prog, an=None, files=None, table=None):
         an.field_override = {('AsmContext', 'pass'): (2, 2)}
     files = files or {f.file for f in prog.fns.values() if f.file.startswith('asm/')}
     summ = ps.summaries(prog, files)
+    fft = ps.file_field_taint(prog, files, summ)
     obs = []
     stats = {'functions': 0, 'mask_sites': 0, 'untainted_masks': 0, 'fields': 0}
     uncut = []
     stats['uncut_sites'] = uncut
+    reported = set()
     table = table or {}
     for fn in sorted(prog.fns.values(), key=lambda f: (f.file, f.line)):
         if fn.file not in files or not fn.blocks:
@@ -73,6 +75,7 @@ def rng(prog, an=None, files=None, table=None):
         stats['functions'] += 1
         fi = ps.FnInfo(prog, fn, summ)
         fi.solve()
+        fi.file_fields = fft.get(fn.file, set())
         ft0 = ps.FlowTaint(fn, fi)
         tags = ps.tag_taint(fn, ft0)
         ft = ps.FlowTaint(fn, fi, tags)
@@ -193,6 +196,7 @@ def rng(prog, an=None, files=None, table=None):
             rk = ps.value_keys(fn, root)
             checked = None
             anywhere = None
+            via_call = None
             for c, bb in fn.blocks.items():
                 cn = fn.nodes.get(bb.get('cond')) if 'cond' in bb else None
                 if cn is None or not (ps.value_keys(fn, cn) & rk):
@@ -200,6 +204,9 @@ def rng(prog, an=None, files=None, table=None):
                 if any(s_ in dead for s_ in bb['s'] if s_ is not None):
                     if c in dom[w[0]]:
                         checked = cn
+                        for x in walk(cn):
+                            if x['k'] == 'CallExpr' and any(ps.value_keys(fn, a) & rk for a in call_args(x)):
+                                via_call = x
                         break
                     anywhere = anywhere or cn
             if checked is None:
@@ -212,6 +219,7 @@ def rng(prog, an=None, files=None, table=None):
                     for x in walk(cn):
                         if x['k'] == 'CallExpr' and any(ps.value_keys(fn, a) & rk for a in call_args(x)):
                             checked = cn
+                            via_call = x
             if checked is None and anywhere is not None:
                 # path-dependent: do the tests form a cut between the function entry and the mask?
                 tests = set()
@@ -247,6 +255,21 @@ def rng(prog, an=None, files=None, table=None):
                                       'paths): on that path an operand that does not fit the %d-bit field is silently '
                                       'truncated' % (rtxt, U, fn.q, wbits)))
                     continue
+            if checked is not None and via_call is not None:
+                # the dominating test is a helper call that receives the record: the helper must check the value on every
+                # path to its store into the field
+                hv = _helper_store_checked(prog, via_call, ps.value_keys(fn, root))
+                if hv is not None and hv[0] is False:
+                    hf, st_, tst = hv[1], hv[2], hv[3]
+                    if (hf.key, st_['i']) in reported:
+                        continue
+                    reported.add((hf.key, st_['i']))
+                    obs.append(Ob('R-RNG2', hf.file, st_['l'], hf.q, 'store:%s' % show(kids(st_)[0])[:40], VIOLATED,
+                                  '%s stores `%s` (line %d), which %s masks to bits %#x at line %d, but a path through %s reaches '
+                                  'the store without passing %s: on that path a value that does not fit the %d-bit field is '
+                                  'silently truncated' % (hf.q, show(st_)[:50], st_['l'], fn.q, U, n['l'], hf.q,
+                                                          'its range test `%s`' % show(tst)[:40] if tst is not None else 'any range test', wbits)))
+                    continue
             if checked is not None or anywhere is not None:
                 cn = checked or anywhere
                 obs.append(Ob('R-RNG', fn.file, n['l'], fn.q, construct, OBSERVATION,
@@ -262,3 +285,113 @@ def rng(prog, an=None, files=None, table=None):
                           '`%s` (range %s) is masked to bits %#x without any dominating test that rejects values outside the '
                           '%d-bit field: an operand that does not fit is silently truncated' % (rtxt, iv, U, wbits)))
     return obs, stats
+
+
+def digit_acc(prog, files=None):
+    """REG-BOUND: a decimal accumulation `v = v * 10 + digit` in a loop of an assembler (register numbers, element
+    indexes) is bounded inside the loop: some test of v against a constant in the same loop leaves it.  A bound that
+    is only tested after the loop sees the wrapped value: `$4294967297` parses as register 1."""
+    from nk.cfg import natural_loops
+    obs = []
+    for fn in sorted(prog.fns.values(), key=lambda f: (f.file, f.line)):
+        if not fn.blocks or not (fn.file.startswith('asm/') if files is None else fn.file in files):
+            continue
+        loops = None
+        k = 0
+        for n in sorted(fn.nodes.values(), key=lambda x: x['i']):
+            if n['k'] != 'BinaryOperator' or n.get('op') != '=':
+                continue
+            l = strip(kids(n)[0], casts=True)
+            if l['k'] != 'DeclRefExpr':
+                continue
+            r = strip(kids(n)[1], casts=True)
+            if r['k'] != 'BinaryOperator' or r.get('op') != '+':
+                continue
+            m = strip(kids(r)[0], casts=True)
+            if not (m['k'] == 'BinaryOperator' and m.get('op') == '*' and strip(kids(m)[0], casts=True).get('d') == l.get('d')
+                    and const(kids(m)[1]) in (8, 10, 16)):
+                continue
+            tw = fn.type(l) or ''
+            if tw in ('uint64_t', 'int64_t', 'unsigned long', 'long', 'unsigned long long', 'long long'):
+                continue
+            w = fn.where.get(n['i'])
+            if w is None:
+                continue
+            if loops is None:
+                loops = natural_loops(fn)
+            inl = [body for h, body in loops.items() if w[0] in body]
+            if not inl:
+                continue
+            body = min(inl, key=len)
+            k += 1
+            ok = False
+            for b in body:
+                bb = fn.blocks[b]
+                cn = fn.nodes.get(bb.get('cond')) if 'cond' in bb else None
+                if cn is None:
+                    continue
+                own = strip(cn)
+                while own['k'] == 'BinaryOperator' and own.get('op') in ('&&', '||'):
+                    own = strip(kids(own)[1])
+                if own['k'] == 'BinaryOperator' and own.get('op') in ('>', '>=', '<', '<=') and \
+                        strip(kids(own)[0], casts=True).get('d') == l.get('d') and \
+                        (const(kids(own)[1]) is not None or strip(kids(own)[1], casts=True).get('dk') == 'param'):
+                    ok = True
+            # a counted loop of at most 9 decimal digits cannot wrap either
+            obs.append(Ob('REG-BOUND', fn.file, n['l'], fn.q, 'acc:%s#%d' % (l.get('n'), k), DISCHARGED if ok else VIOLATED,
+                          '' if ok else '`%s` accumulates decimal digits in a %s without a bound inside the loop: a number with more '
+                          'than 9 digits wraps around and a later range test accepts it (e.g. register 4294967297 is taken for '
+                          'register 1)' % (show(n)[:50], tw), 'bounded inside the loop'))
+    return RuleResult('REG-BOUND', obs, 10, {})
+
+
+def _helper_store_checked(prog, call, field_keys):
+    """For a helper call that receives the record whose field is masked later: does every path from the helper's entry to
+    each of its stores into that field pass a test (with an error arm) of the stored value?
+    Returns None when the helper is not resolved or stores nothing into the field; else (ok, helper, store, a test)."""
+    from nk.facts import ckey
+    hf = prog.by_key.get(ckey(call))
+    if hf is None or not hf.blocks:
+        return None
+    fkeys = {k for k in field_keys if k.startswith('F:')}
+    if not fkeys:
+        return None
+    dead = ps._error_dead(hf)
+    res = None
+    for n in hf.nodes.values():
+        if n['k'] != 'BinaryOperator' or n.get('op') != '=':
+            continue
+        if ps.key_of(hf, kids(n)[0]) not in fkeys or const(kids(n)[1]) is not None:
+            continue
+        w = hf.where.get(n['i'])
+        if w is None or w[0] in dead:
+            continue
+        vk = ps.value_keys(hf, kids(n)[1])
+        # follow plain local copies backwards one step: `value = operand->value`
+        tests = set()
+        a_test = None
+        for c, bb in hf.blocks.items():
+            cn = hf.nodes.get(bb.get('cond')) if 'cond' in bb else None
+            if cn is None or not any(s_ in dead for s_ in bb['s'] if s_ is not None):
+                continue
+            own = strip(cn)
+            while own['k'] == 'BinaryOperator' and own.get('op') in ('&&', '||'):
+                own = strip(kids(own)[1])
+            if ps.value_keys(hf, own) & vk:
+                tests.add(c)
+                a_test = a_test or own
+        if not tests:
+            continue        # the helper does not check this store at all: not the idiom this rule follows
+        seen = set()
+        st = [hf.entry]
+        while st:
+            b = st.pop()
+            if b in seen or b in tests:
+                continue
+            seen.add(b)
+            st.extend(hf.succs(b))
+        ok = w[0] not in seen
+        if not ok:
+            return (False, hf, n, a_test)
+        res = (True, hf, n, a_test)
+    return res
